@@ -168,7 +168,9 @@ def record_serializer_traces(ctx, n, seed):
         k += 1
         try:
             events = list(gen_ser.generate(obj))
-        except ALLOWED:
+        except ALLOWED as ex:
+            # every zoo instance is a legal value of its model: a refusal is reported, never skipped
+            ctx.violation(f"zoo: the serializer refused a legal {type(obj).__name__} instance with {type(ex).__name__}: {ex}", {"obj": repr(obj)[:1500]})
             continue
         run = wb.record_run(be, raw, events, indent=indent)
         abstract_events = [s["ev"] for s in run["steps"]]
